@@ -124,7 +124,7 @@ Choices ==
                    h \in ExistingIds({"leaf"}), t \in (Sz + 2)..MaxNodes}
     [] Family = "order" ->
          {[Node(0, "leaf") EXCEPT !.ref = t, !.lit = l] : t \in 0..MaxNodes, l \in BOOLEAN}
-         \cup {Node(0, "g")}
+         \cup {Node(0, "g"), Node(0, "void")}
     [] Family = "reuse" ->
          {Node(0, "specs"), Node(0, "cont")}
          \cup {[Node(0, "g") EXCEPT !.loc = l] : l \in {<<>>, <<<<"a", 1>>>>}}
@@ -186,7 +186,7 @@ DocOK ==
     /\ SpecsRefFree
     /\ \A n \in SeqToSet(Flatten(doc)) :
           /\ (n.k = "leaf" /\ n.ref > 0 /\ HasId(doc, n.ref)) =>
-                 /\ NodeById(doc, n.ref).k = "leaf" /\ n.ref # n.id
+                 /\ NodeById(doc, n.ref).k \in {"leaf", "void"} /\ n.ref # n.id
                  /\ NodeById(doc, n.ref).ref # -1
           /\ (n.k = "reuse" /\ HasId(doc, n.href)) => NodeById(doc, n.href).k \in {"leaf", "g"}
           /\ (n.k = "reuse" /\ HasId(doc, n.href)) => n.href \in RegStatic(doc)
@@ -199,7 +199,7 @@ DocOK ==
                                           /\ n.ref \in RegStatic(doc)
                                           /\ \A sp \in SeqToSet(Flatten(doc)) : sp.k = "specs" => ~HasId(sp.ch, n.ref))
           \* reference targets are always-registered nodes
-          /\ (n.k = "leaf" /\ n.ref > 0 /\ HasId(doc, n.ref)) => n.ref \in RegStatic(doc)
+          /\ (n.k = "leaf" /\ n.ref > 0 /\ HasId(doc, n.ref)) => (n.ref \in RegStatic(doc) \/ NodeById(doc, n.ref).k = "void")
           \* "^" needs an unambiguous previous element: only in documents whose
           \* rendered elements are all plain shapes, and not as the first one
           /\ (n.k = "leaf" /\ n.ref = -1) =>
@@ -248,7 +248,7 @@ SetTopFrame(f) == [stack EXCEPT ![Len(stack)] = f]
 Running == phase = "run" /\ stack # <<>>
 Dev(d) == d \in Deviations
 
-IdKinds == {"leaf", "g"}
+IdKinds == {"leaf", "g", "void"}
 
 \* --- pe frame: process_tags ------------------------------------------------
 
@@ -421,6 +421,13 @@ ContDone ==
     /\ ret' = RetNone
     /\ UNCHANGED <<doc, lim, lim0, phase, depth, scopes, emap, omap, inSpecs, rng, result, out, gx, px, passes>>
 
+\* an element with an id but nothing to measure (an empty group, a group holding only
+\* <style>): registered, never positioned - a reference to it cannot be satisfied
+VoidDone ==
+    /\ Body("void")
+    /\ stack' = SetTopFrame([Top EXCEPT !.ph = "exit"])
+    /\ UNCHANGED <<doc, lim, lim0, phase, ret, depth, scopes, emap, omap, inSpecs, rng, result, out, gx, px, passes>>
+
 VarAssign ==
     /\ Body("var")
     /\ IF StrMode /\ MaxAssigned(Top.nd.asg, scopes) > lim.vl
@@ -537,7 +544,7 @@ RunNext ==
     \/ TagRegister \/ TagOk \/ TagFail \/ PassEnd
     \/ ElEnter \/ ElExit \/ ChildFail
     \/ LeafResolve \/ GroupPush \/ GroupPop \/ ContBody \/ ContDone
-    \/ VarAssign \/ ConfigApply \/ IfTest \/ IfDone
+    \/ VarAssign \/ ConfigApply \/ IfTest \/ IfDone \/ VoidDone
     \/ LoopInit \/ LoopTest \/ LoopAdvance
     \/ ReusePush \/ ReusePop \/ SpecsEnter \/ SpecsExit
     \/ Finish
